@@ -58,7 +58,7 @@ Lemma insert_region_unfold c r :
        if stale then (false, c)
        else let r1 := inherit r deleted in
             let acc := fold_left rm_step deleted (c_regions c, c_latest c) in
-            (true, mkCache (ins_sorted r1 l1) (reg_set (r_verid r1) (r_start r1) (fst acc)) (lat_set (r_id r1) (r_ver r1, r_conf r1) (snd acc)) (c_sepochs c)).
+            (true, mkCache (ins_sorted r1 l1) (reg_set (r_verid r1) (r_start r1) (fst acc)) (lat_set (r_id r1) (r_ver r1, r_conf r1) (snd acc)) (c_sepochs c) (c_tomb c)).
 Proof.
   unfold insert_region. destruct (stale_by_latest c r); [reflexivity|].
   destruct (remove_intersecting r (c_sorted c)) as [[l1 deleted] stale]. destruct stale; [reflexivity|].
